@@ -12,6 +12,10 @@
 //                                              this chip channel (candidates = how many notes fit; 1 = unambiguous)
 // Executions started with "kon":1 also carry "al": [[midichannel, key, chipchannel], ...], the sounding notes after the
 // call (who is alive where: the trace specification keeps its own record of every note's loudness inputs).
+// init option "rsxx":1 loads a tiny EA-MUS ("RSXX") song after the set-up calls, so that the music mode is RSXX: that mode
+// locks the set-up (two chips, the Generic volume model whatever was asked for, channel volume 127 by default) and turns a
+// NoteOn for a key that is sounding into a velocity update of the sounding note.  The init record reports what the library
+// then says: "vmr" volume model, "nch" chips, "mm" music mode, "cv" CC7 of channel 0; every later record repeats "vmr".
 // "bend" = opn2_rt_pitchBend (every note of the MIDI channel is re-pitched and re-keyed).
 // "gen" lets the time pass: opn2_generate in blocks of "blk" frames until "fr" frames are rendered (arpeggio, note ends).
 // A "sweep" command performs one call per value of one control and records one entry per value.
@@ -145,8 +149,24 @@ int main(int argc, char **argv)
             if(c.has("vm")) opn2_setVolumeRangeModel(dev, (int)c.get("vm"));
             if(c.has("smod")) opn2_setScaleModulators(dev, (int)c.get("smod"));
             if(c.has("frb")) opn2_setFullRangeBrightness(dev, (int)c.get("frb"));
+            if(c.get("rsxx", 0))
+            {
+                // the smallest image the detector accepts (harness/drive_settings.cpp, song 3): byte 0 = offset of the music data
+                // (93, odd), "rsxx}u" 16 bytes before it, one track without a leading delta time: key 36 for 16 ticks, end after 24
+                static const uint8_t music[] = { 0x90, 36, 100, 0x10, 0x80, 36, 0, 0x08, 0xFF, 0x2F, 0x00 };
+                std::vector<uint8_t> img(93, 0);
+                img[0] = 93; memcpy(&img[93 - 0x10], "rsxx}u", 6);
+                img.insert(img.end(), music, music + sizeof music);
+                if(opn2_openData(dev, img.data(), (unsigned long)img.size()) != 0)
+                { fprintf(stderr, "INFRA: the EA-MUS song was rejected: %s\n", opn2_errorInfo(dev)); return 2; }
+                installTap(dev, tap);
+                opn2_setNoteHook(dev, noteHook, NULL);
+            }
             tap->clear();
             w.kv("vmr", opn2_getVolumeRangeModel(dev));
+            w.kv("nch", (long long)playerOf(dev)->m_synth->m_numChips);
+            w.kv("mm", (int)playerOf(dev)->m_synth->m_musicMode);
+            w.kv("cv", playerOf(dev)->m_midiChannels[0].volume);
             w.s += "}\n"; fputs(w.s.c_str(), g_trace);
             alarm(0);
             continue;
